@@ -5,7 +5,7 @@ PROPERTY = "C09"
 
 
 def tasks(tier):
-    return contract_tasks("contracts.scheduler", "C09", tier=tier) + contract_tasks("contracts.sim_process", "C09", tier=tier) \
+    return contract_tasks("contracts.world_group", "C09") + contract_tasks("contracts.scheduler", "C09", tier=tier) + contract_tasks("contracts.sim_process", "C09", tier=tier) \
         + contract_tasks("contracts.run_prelude", "C09", tier=tier) + contract_tasks("contracts.shutdown", "C09", tier=tier) \
         + contract_tasks("contracts.groups", "C11", tier=tier) + lemma_tasks("contracts.groups", "C11") \
         + contract_tasks("contracts.tiered_time", "C08") + other_tasks("contracts.connect_bounded", "C09", "bounded")
